@@ -226,3 +226,48 @@ Example lost_wakeup_without_arming :
   b_body (wb s) = [5000] /\ 0 < b_sw (wb s) /\ 0 < b_cw (wb s) /\ armed s = false /\
   fst (wstep false s (WLoop 10)) = s.
 Proof. vm_compute. repeat split; reflexivity. Qed.
+
+(** 9. The full ledger.  EVERY stream of a connection with the peer's books per
+    stream and for the connection, driven by ANY list of: WINDOW_UPDATE on the
+    connection or on any stream, SETTINGS_INITIAL_WINDOW_SIZE (delta applied to
+    all open streams), SETTINGS_MAX_CONCURRENT_STREAMS, stream open (start_stream)
+    / close, and whole write passes over all the streams sharing the connection
+    window.  At every point: every stream window and the connection window are
+    exactly credit minus sent; the total sent on the connection never exceeds
+    the connection credit; a stream with a non-negative window has sent no more
+    than its credit; a write pass sends in total at most the connection window,
+    in frames within the peer's max frame size; a stream is opened only while
+    fewer than the peer's MAX_CONCURRENT_STREAMS are open. *)
+Theorem never_over_window_all_streams :
+  (forall evs c c' outs, mc_ok c -> mrun c evs = (c', outs) ->
+     mc_ok c' /\ m_sc c' = m_sc c + sumz (map (fun o => sumz (map snd o)) outs)) /\
+  (forall c e c' out, mc_ok c -> mstep c e = (c', out) ->
+     mc_ok c' /\
+     m_sc c' = m_sc c + sumz (map snd out) /\ 0 <= sumz (map snd out) <= m_cw c /\
+     Forall (fun p => 0 <= snd p /\ snd p <= m_mf c) out /\
+     (forall sid chunks, e = MOpen sid chunks -> length (m_streams c') = S (length (m_streams c)) ->
+        Z.of_nat (length (m_streams c)) < m_maxc c)) /\
+  (forall c, mc_ok c ->
+     m_sc c <= m_cc c /\ Forall (fun x => 0 <= ms_w x -> ms_sent x <= ms_credit x) (m_streams c)) /\
+  (forall fuel mf l cw l' cw' out, 0 <= mf -> Forall ms_ok l -> 0 <= cw <= I32_MAX ->
+     mpass fuel cw mf l = Some (l', cw', out) ->
+     Forall2 (fun x x' => ms_sent x <= ms_sent x' /\ ms_sent x' <= Z.max (ms_sent x) (ms_credit x)) l l').
+Proof.
+  split; [exact mrun_ok|]. split; [exact mstep_ok|]. split; [exact mc_ok_ledger|].
+  intros fuel mf l cw l' cw' out Hm Hl Hc H.
+  destruct (mpass_sound fuel mf l cw l' cw' out Hm Hl Hc H) as (_ & _ & _ & _ & _ & _ & _ & R). exact R.
+Qed.
+
+Example never_over_window_all_streams_nonvacuous :
+  let c0 := mkmc 65535 65535 16384 2 [] 65535 0 false in
+  mc_ok c0 /\
+  (let '(c, outs) := mrun c0 [MOpen 1 [50000]; MOpen 3 [50000]; MOpen 5 [10]; MWrite 100; MSettingsIW 1000;
+                              MWUconn 40000; MWrite 100; MWUstream 3 70000; MWrite 100; MClose 1] in
+   (m_cw c, m_sc c, m_cc c, map ms_id (m_streams c), map ms_w (m_streams c), map ms_sent (m_streams c), outs) =
+   (5535, 100000, 105535, [3], [21000], [50000],
+    [[]; []; []; [(1, 16384); (1, 16384); (1, 16384); (1, 848); (3, 15535)]; []; []; []; []; [(3, 16384); (3, 16384); (3, 1697)]; []])).
+Proof.
+  split.
+  - unfold mc_ok, I32_MAX. cbn. repeat split; try lia. constructor.
+  - vm_compute. reflexivity.
+Qed.
